@@ -7,7 +7,8 @@ await, timeout outcomes, interval ticks, final time, unfinished / cancelled join
 kind=reject : the implementation history contradicts the property itself, decided without the
               model for tasks made of plain `sleep D | until T | timeout D sleep D2 | nop` lines in
               modules that never shut down (completion time must be previous completion + D, …),
-              or the model run violates the wake-up invariant
+              or the model run violates the wake-up invariant, or a sleep / timeout of the model run
+              completes at a time other than max(deadline, time of its first poll)
 kind=diverge: implementation ≠ model anywhere else
 -/
 import Desverif.Model.TimerSim
@@ -151,13 +152,22 @@ def runCase (c : Case) : String := Id.run do
               return s!"fail {id} op={li} kind=reject clause=deadline line=[{l.text}] spec={joinSp toks} impl={joinSp l.impl}"
           | none => pure ()
   -- (T) the model run
-  match Sim.run next progsL 200000 with
+  match Sim.run next progsL with
   | none => return s!"fail {id} op=0 kind=internal detail=model-fuel-exhausted"
   | some s =>
     if !s.invOk then
       return s!"fail {id} op=0 kind=reject clause=wakeinv detail=model-run-violates-WakeInv"
+    let slog := s.mods.flatMap (·.log)
+    -- the model run itself must show every own sleep / timeout completing at max(deadline, first poll)
+    for o in slog do
+      if o.own && o.time < tMax then
+        match o.due with
+        | some d =>
+          if o.time != max d o.since then
+            return s!"fail {id} op={o.line} kind=reject clause=late-completion model={showObs o} due={d} since={o.since}"
+        | none => pure ()
     for l in lines do
-      let mtoks := (s.log.filter (·.line == l.idx)).map showObs
+      let mtoks := (slog.filter (·.line == l.idx)).map showObs
       if mtoks != l.impl then
         return s!"fail {id} op={l.idx} kind=diverge line=[{l.text}] model={joinSp mtoks} impl={joinSp l.impl}"
     let munf := s.mods.map fun m => (m.tasks.filter (fun t => !t.done)).length
@@ -179,11 +189,11 @@ def runCase (c : Case) : String := Id.run do
     let ef := (s.mods.map (·.emptyFront)).foldl (· + ·) 0
     let ties := (s.mods.map (·.ties)).foldl (· + ·) 0
     let restarts := (s.mods.map (·.inc)).foldl (· + ·) 0
-    let el := (s.log.filter (·.kind == "el")).length
-    let ticks := (s.log.filter (·.kind.startsWith "k")).length
+    let el := (slog.filter (·.kind == "el")).length
+    let ticks := (slog.filter (·.kind.startsWith "k")).length
     let unf := munf.foldl (· + ·) 0
     let nt := ef > 0 && fired ≥ 2
-    return s!"ok {id} nt={if nt then 1 else 0} events={s.events} fired={fired} emptyfront={ef} ties={ties} restarts={restarts} elapsed={el} ticks={ticks} unfinished={unf} obs={s.log.length}"
+    return s!"ok {id} nt={if nt then 1 else 0} events={s.events} fired={fired} emptyfront={ef} ties={ties} restarts={restarts} elapsed={el} ticks={ticks} unfinished={unf} obs={slog.length}"
 
 def main (stdin : IO.FS.Stream) : IO Unit := do
   let cases ← readCases stdin
